@@ -61,6 +61,16 @@ PROPS = {
         'not_decided': ['that all completion orders give the same values (a whole-build, all-schedules statement)', 'data-race freedom in general, deadlock',
                         'the provide/ready/finish segments of executeTasks'],
     },
+    'C09': {
+        'units': ['signature', 'engine'],
+        'design_ref': 'DESIGN.md section 4, C09',
+        'claim': 'ShellCommand::getSignature feeds every argument, both halves of every environment entry, every deps path and the three scalar '
+                 'settings exactly once (or only the explicit signature when one is given), never hands out the null signature, caches what it '
+                 'returns, and no value reaches combine(bool) through a narrowing conversion; the engine re-runs on signature inequality before '
+                 'validity and offers a prior value only for the same signature',
+        'not_decided': ['collision freedom of the 64-bit hash (hash_combine is uninterpreted)', 'list boundaries in the chain: inputs/outputs/args/env/deps are '
+                        'chained without delimiters (candidate finding F9, ExternalCommand::getSignature is not under contract)', 'the null-build claim end to end'],
+    },
     'C11': {
         'units': ['mkdeps', 'depinfo'],
         'design_ref': 'DESIGN.md section 4, C11',
